@@ -65,6 +65,7 @@ type Config struct {
 
 	RegisterWhitelist []string // overrides the body reader's register whitelist when non-nil
 	ModuleList        bool     // wrap the authboss routes in authboss.ModuleListMiddleware
+	SharedLayout      bool     // the application injects its layout data map (World.Layout) into every request context
 	NilEmptyState     bool     // the client-state stores return a nil ClientState for an empty jar (a store that has no session for the browser)
 	App2FAHandler     bool     // the application registers After(EventTwoFactorAdded/Removed) handlers that answer the request themselves
 	MailGoroutine     bool     // leave MailNoGoroutine=false (schedule engine only)
@@ -519,6 +520,9 @@ func NewStack(cfg Config) (*Stack, error) {
 	inner := h
 	h = http.HandlerFunc(func(w http.ResponseWriter, r *http.Request) {
 		ctx := context.WithValue(r.Context(), xoauth2.HTTPClient, &http.Client{Transport: providerRT{}})
+		if cfg.SharedLayout && s.W.Layout != nil {
+			ctx = context.WithValue(ctx, authboss.CTXKeyData, authboss.HTMLData(s.W.Layout))
+		}
 		inner.ServeHTTP(w, r.WithContext(ctx))
 	})
 	h = ab.LoadClientStateMiddleware(h)
